@@ -23,6 +23,7 @@ type Line struct {
 	A, B   int
 	Imm    uint64
 	Style  int    // literal notation: 0 decimal, 1 0u, 2 0d, 3 0x, 4 0b
+	Pad    int    // leading zeros written in front of the digits (0x and 0b notations)
 	Mov    bool   // print through the mov pseudo-instruction where one exists
 	Target string // j / jz
 	Macro  string // call
@@ -31,6 +32,9 @@ type Line struct {
 type Proc struct {
 	NIn, NOut, NReg int
 	Entry           string
+	// SecMode is the iomode written on the %section line ("sync" or "": none; the effective mode of every
+	// mov to/from a port is sync: section level first, then the global level)
+	SecMode string
 	// EntryPos: where the `entry` directive is written: 0 first line of the section (the usual
 	// spelling), 1 directly in front of the label it names, 2 last line of the section (after the label)
 	EntryPos int
@@ -49,6 +53,8 @@ type Src struct {
 	Procs  []Proc
 	Macros []Macro
 	Links  []kahn.Link
+	// GlobalMode is the iomode written on the global bmdef line ("", "sync" or "async")
+	GlobalMode string
 	// features used (for coverage and signatures)
 	EntryNotFirst bool
 	NestedMacros  bool
@@ -80,8 +86,15 @@ func genALU(t *simrt.Tape, nreg int, mask uint64) Line {
 	op := alu[t.Draw(len(alu))]
 	l := Line{Op: op, A: t.Draw(nreg), B: t.Draw(nreg), Mov: t.Draw(2) == 1}
 	if op == "rset" {
-		l.Imm = uint64(t.Draw(256)) & mask
+		l.Imm = uint64(t.Draw(256))
 		l.Style = t.Draw(5)
+		// wider values (every byte position of the register) and leading zeros: a literal denotes its value
+		// whatever its digit count
+		for k, wide := 1, t.Draw(4); k <= wide; k++ {
+			l.Imm |= uint64(t.Draw(256)) << (8 * uint(k))
+		}
+		l.Imm &= mask
+		l.Pad = t.Draw(4)
 	}
 	return l
 }
@@ -198,6 +211,15 @@ func Generate(t *simrt.Tape, o Options) *Src {
 		}
 		s.Procs = append(s.Procs, p)
 	}
+	// where the I/O mode is declared: on the section (usual), on the global level, or on both — agreeing or
+	// not; the innermost declaration decides, and it says sync everywhere
+	s.GlobalMode = []string{"", "sync", "async"}[t.Draw(3)]
+	for c := range s.Procs {
+		s.Procs[c].SecMode = "sync"
+		if s.GlobalMode == "sync" && t.Draw(2) == 1 {
+			s.Procs[c].SecMode = ""
+		}
+	}
 	return s
 }
 
@@ -208,9 +230,9 @@ func lit(l Line) string {
 	case 2:
 		return fmt.Sprintf("0d%d", l.Imm)
 	case 3:
-		return fmt.Sprintf("0x%x", l.Imm)
+		return fmt.Sprintf("0x%s%x", strings.Repeat("0", l.Pad), l.Imm)
 	case 4:
-		return fmt.Sprintf("0b%b", l.Imm)
+		return fmt.Sprintf("0b%s%b", strings.Repeat("0", l.Pad), l.Imm)
 	}
 	return fmt.Sprint(l.Imm)
 }
@@ -261,7 +283,11 @@ func (s *Src) BASM() string {
 		fmt.Fprintf(&b, "%%endmacro\n\n")
 	}
 	for c, p := range s.Procs {
-		fmt.Fprintf(&b, "%%section code%d .romtext iomode:sync\n", c)
+		if p.SecMode != "" {
+			fmt.Fprintf(&b, "%%section code%d .romtext iomode:%s\n", c, p.SecMode)
+		} else {
+			fmt.Fprintf(&b, "%%section code%d .romtext\n", c)
+		}
 		if p.EntryPos == 0 {
 			fmt.Fprintf(&b, "\tentry %s\n", p.Entry)
 		}
@@ -307,7 +333,11 @@ func (s *Src) BASM() string {
 			}
 		}
 	}
-	fmt.Fprintf(&b, "%%meta bmdef global registersize:%d\n", s.Rsize)
+	if s.GlobalMode != "" {
+		fmt.Fprintf(&b, "%%meta bmdef global registersize:%d, iomode:%s\n", s.Rsize, s.GlobalMode)
+	} else {
+		fmt.Fprintf(&b, "%%meta bmdef global registersize:%d\n", s.Rsize)
+	}
 	return b.String()
 }
 
